@@ -188,6 +188,10 @@ def run(ctx: Ctx, extended: bool = False) -> None:
             elif bool(m) != impl_ok:
                 ctx.disagree(e.cid, f"Lean model of validate says {m}, spec.validate says {impl_ok}", meta)
         ctx.sample({"env": e.cid, "obs_fields": [k for k, _ in speclib.flatten_spec(ospec)][:12], "values_checked": len(metas)})
+    # the adapters' configurations (every reward function, observer, normalisation flag, size) and policies
+    import envprops
+
+    envprops.run(ctx, "C01", extended)
     ctx.coverage_extra["rule"] = ("all catalogue configurations of the 23 classes x keys x random / mask-following in-spec action sequences up to and including "
                                   "the terminal step (time-limit boundary, invalid action, completion); every observation, reward, discount validated; "
                                   "distinct = distinct (config, key, step)")
